@@ -57,8 +57,8 @@ theorem phaseLoop_adopted (sys : Sys) (t0 : Nat) (all pr : List Rule) (ifp : Boo
   | succ fuel ih =>
     intro idx st h
     simp only [phaseLoop]
-    have hp := pass_adopted sys t0 (if (ifp && idx == 0) = true then all else pr) (ifp && idx == 0) st h
-    by_cases hc : (!(pass sys (if (ifp && idx == 0) = true then all else pr) (ifp && idx == 0) st).changed) = true
+    have hp := pass_adopted sys t0 (if ifp = true then all else pr) (ifp && idx == 0) st h
+    by_cases hc : (!(pass sys (if ifp = true then all else pr) (ifp && idx == 0) st).changed) = true
     · simp only [hc, if_true]; exact hp
     · simp only [hc, Bool.false_eq_true, if_false]; exact ih _ _ hp
 
